@@ -50,8 +50,17 @@ def special_meshes() -> list:
     out.append({'name': 'uniform-quads', 'nodes': nodes, 'faces': faces})
     # fan of 5 triangles round node 0 (interior node, every spoke an interior edge)
     ring = [[4, 0], [1, 4], [-3, 2], [-3, -3], [2, -4]]
-    out.append({'name': 'fan', 'nodes': [[0, 0]] + ring,
+    # (node 6 belongs to no face)
+    out.append({'name': 'fan', 'nodes': [[0, 0]] + ring + [[9, 9]],
                 'faces': [[0, 1 + k, 1 + (k + 1) % 5] for k in range(5)]})
+    # a closed surface (tetrahedron laid flat): every edge has two faces, so even the edge-face
+    # table needs no fill value
+    out.append({'name': 'tetrahedron', 'nodes': [[0, 0], [4, 0], [0, 4], [1, 1]],
+                'faces': [[0, 1, 2], [0, 3, 1], [1, 3, 2], [2, 3, 0]]})
+    # a ring of four quads round a hole
+    sq = [[0, 0], [6, 0], [6, 6], [0, 6], [2, 2], [4, 2], [4, 4], [2, 4]]
+    out.append({'name': 'ring', 'nodes': sq,
+                'faces': [[0, 1, 5, 4], [1, 2, 6, 5], [6, 2, 3, 7], [4, 7, 3, 0]]})
     # octagon + square sharing one edge + triangle on another edge
     octo = [[2, 0], [4, 0], [6, 2], [6, 4], [4, 6], [2, 6], [0, 4], [0, 2]]
     out.append({'name': 'octagon', 'nodes': octo + [[8, 2], [8, 4], [3, -2]],
@@ -157,6 +166,12 @@ def build(recipe: dict) -> G.Built:
     if opt.get('drop_mesh_attr'):
         for key in opt['drop_mesh_attr']:
             ds['Mesh2'].attrs.pop(key, None)
+    if opt.get('int_dtype'):
+        for name in _conn_names(ds):
+            if np.issubdtype(ds[name].dtype, np.integer):
+                attrs, enc = dict(ds[name].attrs), dict(ds[name].encoding)
+                ds[name] = ds[name].astype(opt['int_dtype'])
+                ds[name].attrs, ds[name].encoding = attrs, enc
     if opt.get('netcdf'):
         ds = netcdf_roundtrip(ds)
     if opt.get('extra_dim_first'):
